@@ -17,7 +17,8 @@ func init() {
 			"C19.2 every buildAndSend/buildAndSendErr call writes on req.Conn to req.SrcAddr of the same req (helpers forwarding their own parameters are discharged by propagation to their callers; buildAndSend itself writes msg.Raw on conn to dst); " +
 			"C19.3 the method of every response type equals the method the handler is dispatched for (or the request message's own method in the dispatcher); " +
 			"C19.4 the mapped address in Binding/Allocate responses is AddrIPPort(req.SrcAddr), the relayed address is AddrIPPort(alloc.RelayAddr) of the allocation just created, the LIFETIME is the duration handed to CreateAllocation; " +
-			"C19.5 SetResponseCache stores the request's transaction id and the attribute slice that is sent; on the existing-allocation path success is sent only on the id==TransactionID edge, otherwise 437, and no state effect lies on either path.",
+			"C19.5 SetResponseCache stores the request's transaction id and the attribute slice that is sent; on the existing-allocation path success is sent only on the id==TransactionID edge, otherwise 437, and no state effect lies on either path; " +
+			"C19.6 (=C04.3) the fingerprint under which the request's allocation (and its cached answer) is looked up is injective in the 5-tuple.",
 		NotCovered: "reachability of the advertised relayed address from the network; what the relay generator returns; exactly-once delivery of a response.",
 		Run:        runC19,
 	})
@@ -188,6 +189,10 @@ func runC19(c *Ctx) {
 
 	ruleTruthfulAddresses(c, "C19.4")
 	ruleRetransmission(c, "C19.5")
+	// the allocation a request (and its cached answer) is matched to is found by the
+	// fingerprint of the request's 5-tuple: two different tuples must not share one
+	// (shared with C04.3)
+	ruleFingerprintDeps(c, "C19.6")
 }
 
 func rawBase(v ssa.Value) ssa.Value {
